@@ -256,6 +256,7 @@ fn main() {
                 }
                 i += 1;
             }
+            driver::set_thorough(tier == Tier::Thorough);
             let mut ctx = Ctx::new(&id, tier, seed);
             // the harness's own budget: a hang in the machinery is reported as exit 2, never as a violation
             let budget_s: u64 = std::env::var("PV_WATCHDOG_S").ok().and_then(|s| s.parse().ok()).unwrap_or(if tier == Tier::Quick { 1500 } else { 6 * 3600 });
